@@ -112,6 +112,14 @@ func (e *Exec) call(st *State, fr *Frame, x *ssa.Call) string {
 		return ""
 	}
 	name := cl.Fn.String()
+	if name == "sort.Slice" || name == "sort.SliceStable" {
+		// reflection-based swapper: run the harness's insertion sort over engine-level length/swap primitives instead
+		// (what sort.Slice itself does below 12 elements; longer slices are reported as unsupported there)
+		if f := e.Pkg.Func("verifSortSlice"); f != nil {
+			cl = &Closure{Fn: f}
+			name = f.String()
+		}
+	}
 	if cl.Fn.Name() == "init" && cl.Fn.Pkg != nil && cl.Fn.Pkg != e.Pkg && !strings.HasPrefix(cl.Fn.Pkg.Pkg.Path(), e.Pkg.Pkg.Path()+"/") && cl.Fn.Signature.Recv() == nil {
 		// package initialisers of dependencies are not run (DESIGN 2.5)
 		fr.idx++
